@@ -41,13 +41,22 @@ THEOREMS = [
     "HedVerif.C06.old_value_empty_cell_counterexample",
     "HedVerif.C06.join_wellformed",
     "HedVerif.C06.remover_keeps_balance",
+    "HedVerif.C06.splice_wellformed",
+    "HedVerif.C06.assembled_wellformed_partial",
+    "HedVerif.C06.row_wellformed_partial",
+    "HedVerif.C06.file_order_independent",
+    "HedVerif.C06.series_file_order_independent",
+    "HedVerif.C06.findRefs_finds",
+    "HedVerif.C06.refsOf_finds",
+    "HedVerif.C06.two_refs_bounded",
+    "HedVerif.C06.ref_order_blank_counterexample",
 ]
 BUDGET = {"quick": 900, "thorough": 3600}
 
 SIG_ADJ = "C06-same-reference-adjacent-twice"
 TOKENS = ["R", " ", ",", "(", ")"]
 NAMES = ["a", "b", "c", "resp", "1", "20", "x_y", "k-1", "Z", "Ab"]
-TAGS = ["Red", "Blue", "Green", "Square", "Item/Thing", "(Circle, Big)", "Sensory-event"]
+TAGS = ["Red", "Blue", "Green", "Square", "Item/Thing", "(Circle, Big)", "Sensory-event", "{x y}"]
 VTAGS = ["Label/#", "Age/# years", "Description/#"]
 
 
@@ -184,6 +193,46 @@ def check_replace(ctx, texts, name, value, ok, model=None):
                 ctx.violation("splice-result-delimiter-wellformed", case, {"out": out})
 
 
+def part_a2(ctx, ok, n):
+    """two different references in one text, both orders: every accepted, balanced text of <= n tokens over
+    {R, blank, ',', '(', ')', {a}, {b}} with each reference once as a whole tag x all pairs of values"""
+    from hed.models.df_util import replace_ref
+    texts = []
+    for k in range(2, n + 1):
+        for t in itertools.product(TOKENS + ["{a}", "{b}"], repeat=k):
+            if t.count("{a}") == 1 and t.count("{b}") == 1:
+                s = "".join(t)
+                if ok(s) and balanced(s) and whole_tag(s, "{a}") and whole_tag(s, "{b}"):
+                    texts.append(s)
+    values = ["n/a", "", "X", "(X, Y)", " X ", "X "]
+    for va in values:
+        for vb in values:
+            m1 = ctx.model.batch([{"op": "c06.replace_refs", "texts": texts, "name": "a", "value": va,
+                                   "variant": "fixed"}])[0]["outs"]
+            m2 = ctx.model.batch([{"op": "c06.replace_refs", "texts": m1, "name": "b", "value": vb,
+                                   "variant": "fixed"}])[0]["outs"]
+            trimmed = va == va.strip() and vb == vb.strip()
+            for t, mo in zip(texts, m2):
+                case = {"text": t, "a": va, "b": vb}
+                ctx.case(("2", t, va, vb), nontrivial=True)
+                try:
+                    r1 = replace_ref(replace_ref(t, "{a}", va), "{b}", vb)
+                    r2 = replace_ref(replace_ref(t, "{b}", vb), "{a}", va)
+                except Exception as e:
+                    ctx.violation("replace_ref-raised", case, f"{type(e).__name__}: {e}")
+                    continue
+                if r1 != mo:
+                    ctx.disagree("Assemble.replaceRef twice = df_util.replace_ref twice", case, mo, r1)
+                if norm(r1) != norm(r2) or (trimmed and r1 != r2):
+                    ctx.violation("same-result-for-either-reference-order", case, {"a-then-b": r1, "b-then-a": r2})
+                elif r1 != r2:
+                    ctx.count("reference-order-changes-blanks-only")
+                if not ok(r1) or not balanced(r1) or not ok(r2) or not balanced(r2):
+                    ctx.violation("two-references-result-wellformed-and-balanced", case, {"a-then-b": r1, "b-then-a": r2})
+        ctx.check_time()
+    ctx.extra["two_reference_strings"] = len(texts)
+
+
 def part_a(ctx, ok):
     n = 6 if ctx.quick() else 7
     texts = corpus("{c}", n)
@@ -196,6 +245,7 @@ def part_a(ctx, ok):
         check_replace(ctx, nested, "c", value, ok)
     ctx.check_time()
     ctx.extra["replace_ref_nested_strings"] = len(nested)
+    part_a2(ctx, ok, 6 if ctx.quick() else 7)
     m = 5 if ctx.quick() else 6
     for name in ("1", "0", "12", "k-1", "a.b"):      # digits-only names are regex quantifiers when not escaped
         tx = corpus("{" + name + "}", m)
